@@ -305,7 +305,7 @@ def run(ctx):
     C.pqref()
     import multiprocessing as mp
     rng = ctx.rng
-    nh = 120 if ctx.quick() else 1500
+    nh = 300 if ctx.quick() else 3000
     ctx.rule = ("history = initial hive write (0..2 partition columns, 1..8 rows, 1..4 row groups) + 0..5 operations over {append, append='overwrite', "
                 "remove_row_groups(subset, sort_pnames), write_row_groups(sort_key in none/partition/num_rows, sort_pnames)} with generated frames; a fresh "
                 "ParquetFile is opened for every step and for every observation; a case is (history, step); the initial write of a history is the only trivial one; "
